@@ -17,6 +17,11 @@ LEAN = os.path.join(VERIF, "lean")
 HARNESS = os.path.join(VERIF, "harness")
 BUILD = os.path.join(VERIF, ".build")
 TARGET = os.path.join(BUILD, "target")
+# second build of the harness and of the crates under test WITHOUT debug assertions / overflow checks (what a
+# release build compiles): `debug_assert!`s with side effects, `cfg(debug_assertions)` code and wrapping arithmetic
+# behave differently there.  Used by extra runs marked `"ndebug": true` in props/*.json.
+TARGET_ND = os.path.join(BUILD, "target-ndebug")
+ND_FLAGS = "-C debug-assertions=off -C overflow-checks=off"
 AMODEL = os.path.join(LEAN, ".lake", "build", "bin", "amodel")  # all engines; checks use amodel-<engine>
 GUARD = "actix_net_verif"
 ALLOWED_AXIOMS = {"propext", "Classical.choice", "Quot.sound"}
@@ -188,18 +193,20 @@ def grep_forbidden(modules, cwd=LEAN):
 # harness
 # ------------------------------------------------------------------------------------------------
 
-def harness_env():
+def harness_env(ndebug=False):
     env = dict(os.environ)
     flags = env.get("RUSTFLAGS", "")
     if GUARD not in flags:
         flags = (flags + " --cfg " + GUARD).strip()
+    if ndebug and ND_FLAGS not in flags:
+        flags = flags + " " + ND_FLAGS
     env["RUSTFLAGS"] = flags
     env["CARGO_NET_OFFLINE"] = "true"
-    env["CARGO_TARGET_DIR"] = TARGET
+    env["CARGO_TARGET_DIR"] = TARGET_ND if ndebug else TARGET
     return env
 
 
-def cargo_build(bin_name, features):
+def cargo_build(bin_name, features, ndebug=False):
     lock_src = os.path.join(REPO, "Cargo.lock")
     lock_dst = os.path.join(HARNESS, "Cargo.lock")
     cmd = ["cargo", "build", "--offline", "--bin", bin_name]
@@ -208,7 +215,7 @@ def cargo_build(bin_name, features):
     with Lock("cargo.lock"):
         if not os.path.exists(lock_dst):
             shutil.copy(lock_src, lock_dst)
-        rc, out, dt = sh(cmd, cwd=HARNESS, env=harness_env(), timeout=3600)
+        rc, out, dt = sh(cmd, cwd=HARNESS, env=harness_env(ndebug), timeout=3600)
     return rc, out, dt
 
 
@@ -462,14 +469,16 @@ def main():
     # ---- harness --------------------------------------------------------------------------------
     # a replay file names the engine it was produced with (`# engine=…`); without the line it is the property's own
     replay_engine = None
+    replay_build = ""
     if args.replay:
         with open(args.replay, errors="replace") as f:
             for line in f:
-                m = re.match(r"# engine=(\S+)", line)
+                m = re.match(r"# engine=(\S+)(?: build=(\S+))?", line)
                 if m:
                     replay_engine = m.group(1)
+                    replay_build = m.group(2) or ""
                     break
-    main_is_target = not (args.replay and replay_engine and replay_engine != prop["engine"])
+    main_is_target = not (args.replay and replay_engine and (replay_engine != prop["engine"] or replay_build == "ndebug"))
     binname = prop["harness_bin"]
     brc, bout, bdt = cargo_build(binname, prop.get("harness_features", []))
     binpath = os.path.join(TARGET, "debug", binname)
@@ -509,42 +518,47 @@ def main():
     # lines for this property and its model disagreements count like those of the main run.
     extra_results = []   # (eprop, ebinpath, result)
     for ex in prop.get("extra_runs", []):
-        eprop = dict(prop, engine=ex["engine"], harness_bin=ex["harness_bin"], harness_features=ex.get("harness_features", []))
-        if args.replay and replay_engine != ex["engine"]:
+        nd = bool(ex.get("ndebug"))
+        if args.tier not in ex.get("tiers", ["quick", "thorough"]) and not args.replay:
             continue
+        eprop = dict(prop, engine=ex["engine"], harness_bin=ex["harness_bin"],
+                     harness_features=ex.get("harness_features", prop.get("harness_features", []) if nd else []), ndebug=nd)
+        if args.replay and (replay_engine != ex["engine"] or (replay_build == "ndebug") != nd):
+            continue
+        xtag = "[ndebug]" if nd else "[extra]"
         with Lock("lean.lock"):
             erc, eout, ebroken, edt = lake_build(["amodel-" + ex["engine"]])
-        ob("proof:model-builds(%s)[extra]" % ex["engine"], "proof", erc == 0, eout[-600:] if erc else "")
-        ebrc, ebout, ebdt = cargo_build(ex["harness_bin"], eprop["harness_features"])
-        ebin = os.path.join(TARGET, "debug", ex["harness_bin"])
-        ob("correspondence:harness-builds(%s)[extra]" % ex["harness_bin"], "correspondence", ebrc == 0, ebout[-1500:] if ebrc else "")
+        ob("proof:model-builds(%s)%s" % (ex["engine"], xtag), "proof", erc == 0, eout[-600:] if erc else "")
+        ebrc, ebout, ebdt = cargo_build(ex["harness_bin"], eprop["harness_features"], ndebug=nd)
+        ebin = os.path.join(TARGET_ND if nd else TARGET, "debug", ex["harness_bin"])
+        ob("correspondence:harness-builds(%s)%s" % (ex["harness_bin"], xtag), "correspondence", ebrc == 0, ebout[-1500:] if ebrc else "")
         if erc != 0 or ebrc != 0:
             continue
         if args.replay:
             eops = os.path.abspath(args.replay)
         else:
-            eops = os.path.join(workdir, "ops-%s.txt" % ex["engine"])
-            cdir = os.path.join(VERIF, "corpus", "%s.%s" % (pid, ex["engine"]))
+            eops = os.path.join(workdir, "ops-%s%s.txt" % (ex["engine"], "-nd" if nd else ""))
+            cdir = os.path.join(VERIF, "corpus", pid if nd else "%s.%s" % (pid, ex["engine"]))
             with open(eops, "w") as f:
                 if os.path.isdir(cdir):
                     for fn in sorted(os.listdir(cdir)):
                         if fn.endswith(".ops"):
                             f.write(open(os.path.join(cdir, fn)).read().rstrip("\n") + "\n")
-            egen = os.path.join(workdir, "gen-%s.txt" % ex["engine"])
+            egen = os.path.join(workdir, "gen-%s%s.txt" % (ex["engine"], "-nd" if nd else ""))
             grc, gout, gdt = sh([ebin, "gen", "--prop", pid, "--tier", args.tier, "--seed", str(args.seed), "--out", egen],
                                 env=harness_env(), timeout=3600)
             if grc != 0:
-                ob("correspondence:gen(%s)[extra]" % ex["engine"], "correspondence", False, gout[-800:])
+                ob("correspondence:gen(%s)%s" % (ex["engine"], xtag), "correspondence", False, gout[-800:])
                 continue
             with open(eops, "a") as f, open(egen) as g:
                 shutil.copyfileobj(g, f)
-        eres = execute(eprop, pid, ebin, eops, workdir, "extra-" + ex["engine"],
+        eres = execute(eprop, pid, ebin, eops, workdir, "extra-" + ex["engine"] + ("-nd" if nd else ""),
                        timeout=prop.get("timeout_s", {}).get(args.tier, 1800 if args.tier == "quick" else 7200))
-        ob("correspondence:harness-run(%s)[extra]" % ex["harness_bin"], "correspondence", eres["harness_rc"] == 0,
+        ob("correspondence:harness-run(%s)%s" % (ex["harness_bin"], xtag), "correspondence", eres["harness_rc"] == 0,
            ("rc=%d %s" % (eres["harness_rc"], eres["harness_out"][-600:])) if eres["harness_rc"] else "")
-        ob("correspondence:model-agrees(%s)[extra]" % ex["engine"], "correspondence", not eres["disagreements"],
+        ob("correspondence:model-agrees(%s)%s" % (ex["engine"], xtag), "correspondence", not eres["disagreements"],
            json.dumps(eres["disagreements"][:3]) if eres["disagreements"] else "")
-        ob("oracle:T3-on-real-behaviour(%s)[extra]" % ex["engine"], "oracle", not eres["t3"], json.dumps(eres["t3"][:3]) if eres["t3"] else "")
+        ob("oracle:T3-on-real-behaviour(%s)%s" % (ex["engine"], xtag), "oracle", not eres["t3"], json.dumps(eres["t3"][:3]) if eres["t3"] else "")
         extra_results.append((eprop, ebin, eres))
         if args.replay:
             result = eres   # the replay belongs to this engine: print it below
@@ -604,7 +618,7 @@ def main():
             if kn:
                 known_hits.append((key, kn["what"]))
                 continue
-            text = "# property %s: oracle failure on the REAL code (%s)\n# engine=%s\n# %s\n# key=%s shrink_runs=%d\n" % (pid, label, prop["engine"], ts[0]["msg"], key, runs) + "\n".join(small) + "\n"
+            text = "# property %s: oracle failure on the REAL code (%s)\n# engine=%s%s\n# %s\n# key=%s shrink_runs=%d\n" % (pid, label, prop["engine"], " build=ndebug" if prop.get("ndebug") else "", ts[0]["msg"], key, runs) + "\n".join(small) + "\n"
             violations.append((write_replay("%s-%s.ops" % (pid, key), text), ts[0]["msg"]))
 
     any_t3 = False
@@ -613,7 +627,7 @@ def main():
         any_t3 = True
     for eprop, ebin, eres in extra_results:
         if eres["t3"]:
-            handle_t3_failures(eres, "run of the %s engine" % eprop["engine"], prop=eprop, binpath=ebin)
+            handle_t3_failures(eres, "run of the %s engine%s" % (eprop["engine"], " built without debug assertions" if eprop.get("ndebug") else ""), prop=eprop, binpath=ebin)
             any_t3 = True
     if any_t3:
         pass
@@ -716,7 +730,7 @@ def main():
             cov["exhaustive_note"] = prop["exhaustive_note"]
         if extra_results:
             cov["extra_runs"] = [{
-                "engine": ep["engine"], "harness_bin": ep["harness_bin"], "cases": len(er["cases"]),
+                "engine": ep["engine"], "harness_bin": ep["harness_bin"], "build": "ndebug (%s)" % ND_FLAGS if ep.get("ndebug") else "debug", "cases": len(er["cases"]),
                 "evaluations": sum(len(c["ops"]) for c in er["cases"]), "model_disagreements": len(er["disagreements"]),
                 "oracle_failures_on_real_code": len(er["t3"]),
             } for ep, _, er in extra_results]
